@@ -98,6 +98,7 @@ func c13Alphabet() []respEnv {
 
 func runC13(r *Run) {
 	c13Surplus(r)
+	c13FailedOpen(r)
 	// a reply message reused across calls holds, after each successful call, what THAT call's envelope
 	// carried — also when that is the empty message (c01b.go)
 	c01ReusedReply(r)
